@@ -435,10 +435,18 @@ def run(ctx):
               'ClearJobTokens releases the slot of every element of GetActiveEdges()')
     ab = prog.fn('RealCommandRunner::Abort')
     calls = [x.get('name') for x in ab.events('call')]
-    ok = 'RealCommandRunner::ClearJobTokens' in calls and 'SubprocessSet::Clear' in calls and \
-        calls.index('RealCommandRunner::ClearJobTokens') < calls.index('SubprocessSet::Clear')
-    ctx.check('C06.R2', ok, ab.name, 'Abort:tokens-not-cleared-first', ab.loc,
-              'Abort() returns the tokens of all active edges, then kills the subprocesses')
+    # both happen on every path of Abort(), and the tokens go back only after the commands that ran on them were stopped
+    # (SubprocessSet::Clear signals and reaps them): a token handed back earlier can be given to another client of the
+    # jobserver while "its" command is still running (D35; the rule used to demand the opposite order, see DESIGN 11.10)
+    clr_ = [x for x in ab.events('call') if x.get('name') == 'SubprocessSet::Clear']
+    rel_ = [x for x in ab.events('call') if x.get('name') == 'RealCommandRunner::ClearJobTokens' or is_release(x)]
+    ok = bool(clr_) and bool(rel_) and all(any(ab.dominates_ev(c, r_) for c in clr_) for r_ in rel_)
+    ctx.check('C06.R2', ok, ab.name, 'Abort:tokens-returned-before-commands-stopped', ab.loc,
+              'Abort() stops the subprocesses (SubprocessSet::Clear) before it returns the tokens of the active edges')
+    for tgt, what in ((clr_, 'stops the subprocesses'), (rel_, 'returns the tokens')):
+        r_ = ab.find_path(None, lambda x: x['k'] == 'ret' or x.get('k') == 'exit', from_succ=ab.entry, is_blocker=lambda x: any(x is y for y in tgt))
+        r2_ = _exit_reached_without(ab, tgt) if r_ is None else r_
+        ctx.check('C06.R2', bool(tgt) and r_ is None and r2_ is None, ab.name, 'Abort:path-skips:%s' % what.split()[0], ab.loc, 'every path of Abort() %s' % what)
     gae = prog.fn('RealCommandRunner::GetActiveEdges')
     ok = any(mentions_field(x.get('args'), 'RealCommandRunner::subproc_to_edge_') or
              'subproc_to_edge_' in dstr(x.get('init') or x.get('recv')) for x in gae.events())
@@ -870,3 +878,19 @@ def _only_def_is_call(f, d, callee):
     defs = [e for e in f.events() if (e['k'] == 'asg' and is_var(d['n'])(e['l'])) or
             (e['k'] == 'decl' and e['n'] == d['n'] and e.get('init') is not None and dstr(e.get('init')) != '_')]
     return bool(defs) and all(mentions_call(e.get('r') if e['k'] == 'asg' else e.get('init'), callee) for e in defs)
+
+
+def _exit_reached_without(f, blockers):
+    """A way from the entry to the exit block of f that executes none of the events (None if there is none)."""
+    seen, st = set(), [f.entry]
+    while st:
+        b = st.pop()
+        if b in seen or b is None:
+            continue
+        seen.add(b)
+        if any(any(e is k for k in blockers) for e in f.blocks[b]['ev']):
+            continue
+        if b == f.exit:
+            return [b]
+        st += [x for x in f.blocks[b]['succ'] if x is not None]
+    return None
